@@ -55,7 +55,7 @@ theorem SInv.updObs {s : Sys} (h : SInv s) (o : Oid) (f : Obs → Obs) (hf : Goo
     SInv (s.updObs o f) := by
   obtain ⟨U, hU⟩ := h.ci
   exact ⟨⟨h.pw.nodup, h.pw.lt⟩,
-    ⟨U, hU.frame (ClQuiet.refl _) (TaskMono.refl _) (ObsMono.updObs s o f hf) (fun _ _ => Iff.rfl)⟩,
+    ⟨U, hU.frame (ClQuiet.refl _) (TaskMono.refl _) (ObsMonoS.updObs s o f hf) (fun _ _ => Iff.rfl)⟩,
     h.dg.frame rfl rfl rfl rfl (fun _ _ => Iff.rfl) (fun _ _ h => h), h.eg.updObs o f hf⟩
 
 /-- the process's own entry: once its observation is no longer WAITING nothing
